@@ -152,11 +152,11 @@ Proof.
     rewrite Ja. reflexivity.
 Qed.
 
-Lemma j_trim_steps : forall cfg cs a m cs' evs i, 0 <= c_low cfg -> CInv cfg cs -> J cs m ->
+Lemma j_trim_steps : forall cfg cs a m cs' evs i, CInv cfg cs -> J cs m ->
   match a with AOp _ | AClock | ATickPeer _ | ATickEnd => False | _ => True end ->
   cstep cfg cs a = Some (cs', evs) -> exists m', cmon cfg m i evs = inl m' /\ J cs' m'.
 Proof.
-  intros cfg cs a m cs' evs i Hlow H HJ Ha Hs. pose proof (ci_inv _ _ H) as Hinv.
+  intros cfg cs a m cs' evs i H HJ Ha Hs. pose proof (ci_inv _ _ H) as Hinv.
   destruct HJ as [Ja Jt Jact Jp Jg Jc Jad]. destruct a; try contradiction; cbn [cstep] in Hs.
   - (* ABegin *)
     destruct (is_idle (cs_ph cs)) eqn:Ei; cbn [negb] in Hs; [|discriminate].
@@ -186,7 +186,7 @@ Proof.
       destruct (ci_early _ _ H) as [Es _]; [rewrite Eph; reflexivity|].
       destruct (ci_c _ _ H (cs_ncand cs)) as [HD HU]; [unfold cbound; rewrite Eph; reflexivity|].
       pose proof (phi_le (cs_s cs) (cs_gstart cs) (cs_sel cs) (cs_cands cs)) as Hphi. rewrite Es in Hphi, HD. apply Z.ltb_lt in En.
-      replace (phi (cs_s cs) (cs_gstart cs) [] (cs_cands cs) <=? c_low cfg + (cs_added1 cs + cs_added2 cs)) with true
+      replace (phi (cs_s cs) (cs_gstart cs) [] (cs_cands cs) <=? Z.max 0 (c_low cfg) + (cs_added1 cs + cs_added2 cs)) with true
         by (symmetry; apply Z.leb_le; lia).
       cbn [negb]. eexists. split; [reflexivity|]. constructor; jsimpl; try assumption; try reflexivity; try (intros; discriminate).
     + cbn [cmon cmon_step]. eexists. split; [reflexivity|]. constructor; jsimpl; try assumption; try reflexivity;
@@ -235,7 +235,7 @@ Proof.
     rewrite Ja, Jg, (closed_out_of_grace_ok cfg cs H). cbn [negb].
     rewrite (Jp eq_refl). cbn [negb andb]. rewrite m_remaining_phi, Jad.
     pose proof (phi_at_close cfg cs H Eph) as Hphi.
-    replace (phi (cs_s cs) (cs_gstart cs) (cs_sel cs) (cs_cands cs) <=? c_low cfg + (cs_added1 cs + cs_added2 cs)) with true
+    replace (phi (cs_s cs) (cs_gstart cs) (cs_sel cs) (cs_cands cs) <=? Z.max 0 (c_low cfg) + (cs_added1 cs + cs_added2 cs)) with true
       by (symmetry; apply Z.leb_le; lia).
     cbn [negb]. eexists. split; [reflexivity|]. constructor; jsimpl; try assumption; try reflexivity; try (intros; discriminate).
 Qed.
@@ -249,32 +249,32 @@ Proof.
     f_equal. unfold zlen. cbn [length]. lia.
 Qed.
 
-Lemma j_step : forall cfg cs a m cs' evs i, 0 <= c_low cfg -> CInv cfg cs -> J cs m ->
+Lemma j_step : forall cfg cs a m cs' evs i, CInv cfg cs -> J cs m ->
   cstep cfg cs a = Some (cs', evs) -> exists m', cmon cfg m i evs = inl m' /\ J cs' m'.
 Proof.
-  intros cfg cs a m cs' evs i Hlow H HJ Hs. destruct a.
+  intros cfg cs a m cs' evs i H HJ Hs. destruct a.
   - exact (j_aop cfg cs o m cs' evs i H HJ Hs).
   - apply (j_clock_tick cfg cs AClock m cs' evs i H HJ); [left; reflexivity|exact Hs].
   - apply (j_clock_tick cfg cs (ATickPeer p) m cs' evs i H HJ); [right; left; exists p; reflexivity|exact Hs].
   - apply (j_clock_tick cfg cs ATickEnd m cs' evs i H HJ); [right; right; reflexivity|exact Hs].
-  - exact (j_trim_steps cfg cs ABegin m cs' evs i Hlow H HJ I Hs).
-  - exact (j_trim_steps cfg cs (ASnap p) m cs' evs i Hlow H HJ I Hs).
-  - exact (j_trim_steps cfg cs ASnapEnd m cs' evs i Hlow H HJ I Hs).
-  - exact (j_trim_steps cfg cs (ACmp p q) m cs' evs i Hlow H HJ I Hs).
-  - exact (j_trim_steps cfg cs (ASortEnd perm) m cs' evs i Hlow H HJ I Hs).
-  - exact (j_trim_steps cfg cs ASelect m cs' evs i Hlow H HJ I Hs).
-  - exact (j_trim_steps cfg cs AFinish m cs' evs i Hlow H HJ I Hs).
+  - exact (j_trim_steps cfg cs ABegin m cs' evs i H HJ I Hs).
+  - exact (j_trim_steps cfg cs (ASnap p) m cs' evs i H HJ I Hs).
+  - exact (j_trim_steps cfg cs ASnapEnd m cs' evs i H HJ I Hs).
+  - exact (j_trim_steps cfg cs (ACmp p q) m cs' evs i H HJ I Hs).
+  - exact (j_trim_steps cfg cs (ASortEnd perm) m cs' evs i H HJ I Hs).
+  - exact (j_trim_steps cfg cs ASelect m cs' evs i H HJ I Hs).
+  - exact (j_trim_steps cfg cs AFinish m cs' evs i H HJ I Hs).
 Qed.
 
-Lemma j_run : forall cfg sched cs m i, 0 <= c_low cfg -> CInv cfg cs -> J cs m ->
+Lemma j_run : forall cfg sched cs m i, CInv cfg cs -> J cs m ->
   exists m', cmon cfg m i (snd (crun cfg cs sched)) = inl m' /\ J (fst (crun cfg cs sched)) m'.
 Proof.
-  intros cfg. induction sched as [|a r IH]; intros cs m i Hlow H HJ; cbn [crun].
+  intros cfg. induction sched as [|a r IH]; intros cs m i H HJ; cbn [crun].
   - exists m. split; [reflexivity|exact HJ].
   - destruct (cstep cfg cs a) as [[cs' ev]|] eqn:Es; [|apply IH; assumption].
-    destruct (j_step cfg cs a m cs' ev i Hlow H HJ Es) as [m1 [Hm1 HJ1]].
-    pose proof (cinv_step cfg cs a cs' ev Hlow H Es) as H1.
-    destruct (IH cs' m1 (i + zlen ev) Hlow H1 HJ1) as [m2 [Hm2 HJ2]].
+    destruct (j_step cfg cs a m cs' ev i H HJ Es) as [m1 [Hm1 HJ1]].
+    pose proof (cinv_step cfg cs a cs' ev H Es) as H1.
+    destruct (IH cs' m1 (i + zlen ev) H1 HJ1) as [m2 [Hm2 HJ2]].
     destruct (crun cfg cs' r) as [cf evs]. cbn [fst snd] in *. exists m2. split; [|exact HJ2].
     rewrite (cmon_app cfg ev evs m i m1 Hm1). exact Hm2.
 Qed.
@@ -284,9 +284,9 @@ Proof. intros. constructor; cbn; try reflexivity. intros; discriminate. Qed.
 
 (* THE theorem of this part: the concurrent-trace monitor accepts the event
    trace of every schedule of the LTS *)
-Lemma cmon_accepts_l : forall cfg sched, 0 <= c_low cfg ->
+Lemma cmon_accepts_l : forall cfg sched,
   exists m', cmon cfg (cm_init (ainit cfg)) 0 (snd (crun cfg (cinit cfg) sched)) = inl m'.
 Proof.
-  intros cfg sched Hlow. destruct (j_run cfg sched (cinit cfg) (cm_init (ainit cfg)) 0 Hlow (cinv_init cfg) (j_init cfg))
+  intros cfg sched. destruct (j_run cfg sched (cinit cfg) (cm_init (ainit cfg)) 0 (cinv_init cfg) (j_init cfg))
     as [m' [Hm _]]. exists m'. exact Hm.
 Qed.
